@@ -29,6 +29,10 @@ def main():
     finally:
         subprocess.run(['git', '-C', REPO, 'checkout', '--', '.'], check=True)
         subprocess.run(['git', '-C', REPO, 'clean', '-fdq', '--', 'fastpasta/src', 'alice_protocol_reader/src'], check=False)
+        # rebuild the binaries from the restored tree so that later `--no-build` runs do not use the seeded build
+        sys.path.insert(0, os.path.join(ROOT, 'tools'))
+        import fplib as L
+        L.build_impl(); L.build_hook()
     print('CAUGHT-BY', [p for p in res if res[p]['exit'] != 0])
     json.dump(res, sys.stdout); print()
 
